@@ -39,7 +39,9 @@ RULE = (
     "change, then a change that permits it again, optionally forbidden again); requests (PeerTransferQueue / "
     "PeerTransferRequest(direction upload) for paths exact, UPPER, lower, doubled and forward separators, unknown, "
     "deleted-from-disk, from every user); searches (ServerSearchRequest, FileSearch and, with a scripted distributed "
-    "parent, DistributedSearchRequest; ExcludedSearchPhrases pushed in lower / UPPER / Mixed case); shares "
+    "parent, DistributedSearchRequest; ExcludedSearchPhrases pushed in lower / UPPER / Mixed case: whole words and substrings cut "
+    "INSIDE the words of real paths of the run — inside one word (1-3 characters or longer), spanning a space, "
+    "spanning the path separator, long — followed by searches that hit the file the phrase was cut from); shares "
     "(PeerSharesRequest, PeerDirectoryContentsRequest for a top directory, a sub-directory, an unknown one); mixed; "
     "double change (an upload to fred UPLOADING and held, a second upload to lisa/stan QUEUED / UPLOADING / aborted "
     "for a configuration reason; change 1 forbids the first, after a seeded gap of 0-8 loop steps or 1-30 ms — for a "
@@ -65,7 +67,8 @@ ASSUMPTIONS = [
     "(starts_inside_reeval_window), not judged: the statement grants the re-evaluation a delay",
     "an upload aborted on the user's request that is (also) no longer permitted may keep the reason Requested",
     "excluded phrases are never part of a directory alias (such phrases are dropped before the push); a phrase is "
-    "looked for in the file name the reply carries (remote path), case-insensitively",
+    "looked for, case-insensitively, in the file name the reply carries (remote path) below its first component (the "
+    "alias, random letters standing for the local location of the shared directory)",
     "remove_shared_directory hands the files of a nested directory to the closest remaining shared parent and "
     "add_shared_directory takes over the files of the closest parent below the new directory (docstrings of both; "
     "vf/sharesmodel.py RefIndex.add / remove), with or without a rescan",
@@ -75,12 +78,12 @@ MIN_OBS = {
     'quick': {'requests_judged': 260, 'search_replies_judged': 120, 'shares_replies_judged': 75, 'reeval_checks': 600,
               'changes_applied': 620, 'uploads_created_permitted': 290, 'reeval_uploads_unfinished': 570,
               'reeval_requeue_expected': 140, 'reeval_user_aborted_checked': 28, 'phrase_checks': 200,
-              'double_changes': 55, 'judgements_on_moved_files': 140},
+              'substring_phrases_pushed': 60, 'double_changes': 55, 'judgements_on_moved_files': 140},
     'thorough': {'requests_judged': 10000, 'search_replies_judged': 4800, 'shares_replies_judged': 3000,
                  'reeval_checks': 24000, 'changes_applied': 24800, 'uploads_created_permitted': 11600,
                  'reeval_uploads_unfinished': 22800, 'reeval_requeue_expected': 5600,
-                 'reeval_user_aborted_checked': 1100, 'phrase_checks': 8000, 'double_changes': 2200,
-                 'judgements_on_moved_files': 5600},
+                 'reeval_user_aborted_checked': 1100, 'phrase_checks': 8000, 'substring_phrases_pushed': 2400,
+                 'double_changes': 2200, 'judgements_on_moved_files': 5600},
 }
 SHARD_TIMEOUT = {'quick': 600, 'thorough': 5400}
 SIZES = {'quick': 1200, 'thorough': 180000}
@@ -281,12 +284,75 @@ def _case_style(rng: random.Random, text: str) -> str:
     return out if out != out.lower() else text.title()
 
 
+def _word_spans(text: str) -> list:
+    """(start, end) of the maximal alphanumeric runs of ``text``."""
+    spans, start = [], None
+    for i, ch in enumerate(text + ' '):
+        if ch.isalnum():
+            if start is None:
+                start = i
+        elif start is not None:
+            spans.append((start, i))
+            start = None
+    return spans
+
+
+def cut_phrase(rng: random.Random, qpath: str):
+    """A substring of ``qpath`` (path below the shared directory, backslash separated) that does NOT sit on
+    word boundaries at both ends: inside one word (1-3 characters or longer), spanning a space, spanning the
+    path separator, or long (several words, cut inside the first and the last).  -> (kind, phrase) or None."""
+    spans = _word_spans(qpath)
+    kinds = ['inside-short', 'inside', 'span-space', 'span-space', 'span-sep', 'span-sep', 'long']
+    rng.shuffle(kinds)
+    for kind in kinds:
+        if kind in ('inside-short', 'inside'):
+            cands = [(a, b) for a, b in spans if b - a >= 4]
+            if not cands:
+                continue
+            a, b = rng.choice(cands)
+            n = rng.randint(1, 3) if kind == 'inside-short' else rng.randint(3, b - a - 1)
+            i = rng.randint(a + 1, b - n) if b - n >= a + 1 else a + 1
+            j = min(i + n, b)
+            if i > a or j < b:
+                return kind, qpath[i:j]
+        elif kind in ('span-space', 'span-sep'):
+            sepch = ' ' if kind == 'span-space' else '\\'
+            pairs = [(spans[x], spans[x + 1]) for x in range(len(spans) - 1)
+                     if qpath[spans[x][1]:spans[x + 1][0]] == sepch
+                     and spans[x][1] - spans[x][0] >= 2 and spans[x + 1][1] - spans[x + 1][0] >= 2]
+            if not pairs:
+                continue
+            (a1, b1), (a2, b2) = rng.choice(pairs)
+            return kind, qpath[rng.randint(a1 + 1, b1 - 1):rng.randint(a2 + 1, b2 - 1)]
+        else:
+            if len(spans) < 3:
+                continue
+            x = rng.randrange(len(spans) - 2)
+            y = rng.randrange(x + 2, len(spans))
+            (a1, b1), (a2, b2) = spans[x], spans[y]
+            if b1 - a1 >= 2 and b2 - a2 >= 2:
+                return kind, qpath[rng.randint(a1 + 1, b1 - 1):rng.randint(a2 + 1, b2 - 1)]
+    return None
+
+
 def _phrases(rng: random.Random, g: dict) -> dict:
+    """Whole-word phrases and phrases cut inside the words of real paths of the run, any letter case."""
     words = [d['word'] for d in g['dirs']]
-    lst = []
+    lst, kinds, hits = [], [], []
     for tpl in rng.sample(PHRASES, rng.randint(1, 3)):
+        if rng.random() < 0.5:
+            word = rng.choice(words)
+            j = rng.randrange(3)
+            sub, fn = dir_files(word)[j]
+            cut = cut_phrase(rng, (sub + '\\' + fn) if sub else fn)
+            if cut is not None and cut[1].strip():
+                lst.append(_case_style(rng, cut[1]))
+                kinds.append(cut[0])
+                hits.append(rng.choice([word, ('song', 'tune', 'ghost track')[j]]))
+                continue
         lst.append(_case_style(rng, tpl.format(w=rng.choice(words))))
-    return {'k': 'phrases', 'list': lst}
+        kinds.append('whole-words')
+    return {'k': 'phrases', 'list': lst, 'kinds': kinds, 'hits': hits}
 
 
 def _search(rng: random.Random, g: dict) -> dict:
@@ -471,8 +537,16 @@ def gen_plan(rng: random.Random, n: int) -> dict:
             for _ in range(rng.randint(5, 8)):
                 add(_rand_change(rng, g) if rng.random() < 0.2 else _request(rng, g))
         elif template == 'search':
+            hits: list = []
+
+            def search_step():
+                st = _search(rng, g)
+                if hits and rng.random() < 0.6:
+                    st['q'] = rng.choice(hits)
+                return st
             if rng.random() < 0.8:
                 add(_phrases(rng, g))
+                hits = steps[-1]['hits']
             for _ in range(rng.randint(3, 7)):
                 if len(steps) >= 8:
                     break
@@ -481,8 +555,9 @@ def gen_plan(rng: random.Random, n: int) -> dict:
                     add(_rand_change(rng, g, prefer=('block', 'friend')))
                 elif r < 0.3:
                     add(_phrases(rng, g))
+                    hits = steps[-1]['hits']
                 else:
-                    add(_search(rng, g))
+                    add(search_step())
         elif template == 'shares':
             for _ in range(rng.randint(4, 8)):
                 add(_rand_change(rng, g, prefer=('block', 'dirmode')) if rng.random() < 0.2 else _shares_step(rng, g))
@@ -818,9 +893,12 @@ def run_case(params: dict) -> dict:
                 if lck_paths:
                     add('search_replies_with_locked_results')
                 for p_ in res_paths + lck_paths:
+                    # below the alias component: the alias stands for the local location of the shared directory
+                    # (random letters; a match through it would be an artefact of the run)
+                    below = p_.split('\\', 1)[1] if '\\' in p_ else p_
                     for ph in phrases_now:
                         add('phrase_checks')
-                        if ph.lower() in p_.lower():
+                        if ph.lower() in below.lower():
                             kind = 'case' if ph != ph.lower() else 'same-case'
                             violate(f'search:excluded-phrase-not-applied:{kind}', file=p_, phrase=ph, **info)
 
@@ -832,6 +910,11 @@ def run_case(params: dict) -> dict:
             phrases_now[:] = lst
             for ph in lst:
                 cov('phrase_cases', 'lower' if ph == ph.lower() else ('upper' if ph == ph.upper() else 'mixed'))
+            for kind_, ph in zip(st.get('kinds') or [], st['list']):
+                if ph in lst:
+                    cov('phrase_kinds', kind_)
+                    if kind_ != 'whole-words':
+                        add('substring_phrases_pushed')
             trace.append((round(w.now, 3), 'phrases', lst))
             add('phrase_pushes')
 
